@@ -55,9 +55,20 @@ Public API (keep small; C19/C20 reuse it):
     .others_idle() .let_others_run()
   Result: outcome, waits, tasks{name: TaskInfo(result, exc, aborted)}, switches,
           log, steps, preempt_points, decisions
-  ListStrategy, DFSStrategy, enumerate_schedules, schedule_strategy (hypothesis)
+  ListStrategy, DFSStrategy, enumerate_schedules, schedule_strategy (hypothesis),
+  strategy_from_case(schedule_dict, hot_pred)
   coopify(sched, obj, memo) - replace real Lock/Condition/Event attributes by shims
   patch_time(sched, *modules) - context manager
+  Log events: ("acq"|"rel", task, lock) ("wait", task, cv) ("woken", task, cv, notified)
+  ("notify", task, cv, n) ("timeout", task, now) + whatever the harness adds with note().
+  Channel bench (FakeTransport, make_channel, pipe_os_shim): vlib/chanbench.py.
+
+Typical use:
+    s = Scheduler(strategy_from_case(case["sched"]), trace_files={mod.__file__: None})
+    obj = Thing(); coopify(s, obj)            # real primitives -> cooperative ones
+    s.spawn("a", lambda: obj.op1()); s.spawn("b", lambda: obj.op2())
+    with patch_time(s, mod): res = s.run()
+    res.outcome, res.waits, res.log, res.switches
 """
 import contextlib
 import os
